@@ -10,6 +10,7 @@ import subprocess, sys, tempfile, time
 
 VERIF = os.path.dirname(os.path.dirname(os.path.abspath(__file__)))
 REPO = os.environ.get("VERIF_REPO", "/repo")
+EVID = os.environ.get("VERIF_EVIDENCE_DIR", os.path.join(VERIF, "evidence"))   # redirected when a seeded change is being tried
 TLA_CP = "/opt/veriftools/tla/tla2tools.jar:/opt/veriftools/tla/CommunityModules-deps.jar"
 NCPU = os.cpu_count() or 4
 GOENV = dict(GOFLAGS="-mod=mod", GOPROXY="off", GOSUMDB="off", GOTOOLCHAIN="local")
@@ -41,6 +42,7 @@ class Ctx:
         self.violations = 0
         self.assumptions = []
         self.checker_cmds = []
+        self.prepare = None      # how to build scratch copy + harness (set by shim-based properties)
 
     # ---------------------------------------------------------------- scratch
     def setup(self, need_harness=True):
@@ -97,6 +99,66 @@ class Ctx:
         if r.returncode != 0:
             raise Infra("harness does not build against the working tree:\n" + r.stderr[-3000:])
         self.drive_bin = os.path.join(self.scratch, "drive")
+
+    def apply_shims(self, only="sync,time,golang.org/x/sync/singleflight", probes=None):
+        """DESIGN section 5: copy the shim packages into the scratch copy as zzshim/... and redirect the
+        imports of the library (never of /repo itself).  Any failure is an infrastructure error."""
+        g = os.path.join(self.scratch, "gogu")
+        z = os.path.join(g, "zzshim")
+        if os.path.exists(z):
+            shutil.rmtree(z)
+        shutil.copytree(os.path.join(VERIF, "shim"), z)
+        env = dict(os.environ, **GOENV)
+        tb = os.path.join(self.scratch, "rewrite")
+        if not os.path.exists(tb):
+            r = subprocess.run(["go", "build", "-o", tb, "./rewrite"], cwd=os.path.join(VERIF, "tools"), env=env,
+                               capture_output=True, text=True)
+            if r.returncode != 0:
+                raise Infra("rewrite tool does not build:\n" + r.stderr[-2000:])
+        cmd = [tb, "-dir", g, "-imports", "-only", only]
+        if probes:
+            cmd += ["-probes", ",".join(probes)]
+        r = subprocess.run(cmd, env=env, capture_output=True, text=True)
+        if r.returncode != 0:
+            raise Infra("rewriting the scratch copy failed:\n" + (r.stderr + r.stdout)[-2000:])
+        try:
+            info = json.loads(r.stdout.strip().split("\n")[-1])
+        except Exception:
+            raise Infra("rewrite printed no summary: " + r.stdout[-300:])
+        r = subprocess.run(["go", "build", "./..."], cwd=g, env=env, capture_output=True, text=True)
+        if r.returncode != 0:
+            raise Infra("the rewritten scratch copy does not build:\n" + r.stderr[-2500:])
+        self.notes["rewrite"] = info
+        return info
+
+    def drive_procs(self, driver, args, shards, timeout=1800):
+        """process-level sharding: one driver process per shard (drivers that own process-global state)."""
+        def one(i):
+            cmd = [self.drive_bin, "-p", driver, "-seed", str(self.seed), "-tier", self.tier,
+                   "-shards", str(shards), "-shard", str(i)] + [str(a) for a in args]
+            r = subprocess.run(cmd, capture_output=True, text=True, timeout=timeout,
+                               env=dict(os.environ, GOMAXPROCS="2"))
+            if r.returncode != 0:
+                raise Infra("driver %s shard %d failed (rc %d): %s" % (driver, i, r.returncode, r.stderr[-2000:]))
+            try:
+                return json.loads(r.stdout.strip().split("\n")[-1])
+            except Exception:
+                raise Infra("driver %s printed no summary: %s" % (driver, r.stdout[-500:]))
+        with cf.ThreadPoolExecutor(max_workers=min(shards, NCPU)) as ex:
+            parts = list(ex.map(one, range(shards)))
+        tot = dict(files=[], nodes=0, leaves=0, panics=0, samples=[], extra={})
+        for p in parts:
+            tot["files"] += p["files"]
+            tot["nodes"] += p["nodes"]
+            tot["leaves"] += p["leaves"]
+            tot["panics"] += p["panics"]
+            tot["samples"] += (p.get("samples") or [])[:1]
+            for k, v in (p.get("extra") or {}).items():
+                if isinstance(v, (int, float)):
+                    tot["extra"][k] = tot["extra"].get(k, 0) + v
+                else:
+                    tot["extra"][k] = v
+        return tot
 
     def cleanup(self):
         if self.scratch and os.path.isdir(self.scratch) and not os.environ.get("VERIF_KEEP"):
@@ -280,7 +342,7 @@ def known_findings(prop=None):
 
 # ------------------------------------------------------------------- verdicts
 def write_replay(ctx, driver, variant, module, path, observed, note=""):
-    rd = os.path.join(VERIF, "evidence", "replays")
+    rd = os.path.join(EVID, "replays")
     os.makedirs(rd, exist_ok=True)
     body = dict(property=ctx.prop, kind="oppath", driver=driver, var=variant, module=module, path=path,
                 observed=observed, note=note)
@@ -323,8 +385,8 @@ def write_evidence(ctx, level="model_checking", extra_cov=None, exhaustive=None)
         cov.update(extra_cov)
     ev = dict(property_id=ctx.prop, tier=ctx.tier, seed=ctx.seed, level=level, coverage=cov,
               assumptions=ctx.assumptions, wall_s=round(time.time() - ctx.t0, 1), violations=ctx.violations)
-    os.makedirs(os.path.join(VERIF, "evidence"), exist_ok=True)
-    with open(os.path.join(VERIF, "evidence", ctx.prop + ".json"), "w") as f:
+    os.makedirs(EVID, exist_ok=True)
+    with open(os.path.join(EVID, ctx.prop + ".json"), "w") as f:
         json.dump(ev, f, indent=1)
         f.write("\n")
 
@@ -432,7 +494,10 @@ def run_replay_file(ctx, rf):
     body = json.load(open(rf))
     if body.get("kind") != "oppath":
         raise Infra("unknown replay kind in " + rf)
-    ctx.setup()
+    if ctx.prepare:
+        ctx.prepare(ctx)
+    else:
+        ctx.setup()
     out = os.path.join(ctx.scratch, "t", "replay.lin.ndjson")
     now = ctx.replay_path(body["driver"], body["var"], body["path"], out=out)
     opn, _ = known_findings(ctx.prop)
